@@ -111,6 +111,8 @@ type Outcome struct {
 	Durations  []int
 	EmitInput  []int // per emitted muxer frame: the AddFrame index
 	Rejected   []int // AddFrame calls that returned an error (error injection only)
+	Fails      []StepFail
+	Faulty     bool
 	EmitFiller []bool
 	State      string
 	ICC, EXIF, XMP []byte `json:"-"`
@@ -250,49 +252,66 @@ func (h *History) Pad(i int) []byte {
 	return c
 }
 
-// deriveOracle turns the encoder calls of one AddFrame into the model's oracle record.
-func deriveOracle(calls []encCall, mixed bool) StepOracle {
+// StepFail: which frame-encoder invocations of one AddFrame failed (the model's efail record).
+type StepFail struct{ A, B, C, K bool }
+
+// deriveOracle turns the encoder calls of one AddFrame into the model's oracle and failure
+// records.  Invocations are encodeFrame calls in program order (first / dispose-none, dispose-
+// background, key-frame candidate, re-encode inside encodeKeyframe); in mixed mode a successful
+// primary call is followed by the alternate codec's call, whose failure means "not chosen".
+func deriveOracle(calls []encCall, mixed, lossless bool) (StepOracle, StepFail) {
 	type inv struct {
-		size int
-		alt  bool
+		size   int
+		alt    bool
+		failed bool
 	}
 	var invs []inv
 	for i := 0; i < len(calls); {
-		if mixed && i+1 < len(calls) {
-			p, a := calls[i], calls[i+1]
+		p := calls[i]
+		if !p.ok {
+			invs = append(invs, inv{failed: true})
+			i++
+			continue
+		}
+		if mixed && i+1 < len(calls) && calls[i+1].lossless != lossless && p.lossless == lossless {
+			a := calls[i+1]
 			if a.ok && a.size < p.size {
-				invs = append(invs, inv{a.size, true})
+				invs = append(invs, inv{size: a.size, alt: true})
 			} else {
-				invs = append(invs, inv{p.size, false})
+				invs = append(invs, inv{size: p.size})
 			}
 			i += 2
 		} else {
-			invs = append(invs, inv{calls[i].size, false})
+			invs = append(invs, inv{size: p.size})
 			i++
 		}
 	}
 	var o StepOracle
+	var f StepFail
 	if len(invs) >= 1 {
-		o.AltA = invs[0].alt
+		o.AltA, f.A = invs[0].alt, invs[0].failed
 	}
 	if len(invs) >= 2 {
-		o.AltB = invs[1].alt
-		o.BG = invs[1].size < invs[0].size
+		o.AltB, f.B = invs[1].alt, invs[1].failed
+		o.BG = !invs[1].failed && invs[1].size < invs[0].size
 		best := invs[0].size
 		if o.BG {
 			best = invs[1].size
 		}
 		if len(invs) >= 3 {
-			o.AltC = invs[2].alt
-			o.Key = invs[2].size < best
+			o.AltC, f.C = invs[2].alt, invs[2].failed
+			o.Key = !invs[2].failed && invs[2].size < best
+		}
+		if len(invs) >= 4 {
+			f.K = invs[3].failed
 		}
 	}
-	return o
+	return o, f
 }
 
 // Run executes the history on the real encoder and plays the result back.
 func Run(h *History, rng *Rand) (out *Outcome) {
-	out = &Outcome{}
+	out = &Outcome{Faulty: h.Faulty()}
 	defer func() {
 		if r := recover(); r != nil {
 			out.Err = fmt.Sprintf("PANIC %v", r)
@@ -384,10 +403,14 @@ func Run(h *History, rng *Rand) (out *Outcome) {
 				return
 			}
 			out.Rejected = append(out.Rejected, i)
-			out.Oracles = append(out.Oracles, StepOracle{})
+			so, sf := deriveOracle(calls, h.Mixed, h.Lossless)
+			out.Oracles = append(out.Oracles, so)
+			out.Fails = append(out.Fails, sf)
 			continue
 		}
-		out.Oracles = append(out.Oracles, deriveOracle(calls, h.Mixed))
+		so, sf := deriveOracle(calls, h.Mixed, h.Lossless)
+		out.Oracles = append(out.Oracles, so)
+		out.Fails = append(out.Fails, sf)
 		fc, _, _, _, _, _, _ := animation.VerifEncoderState(e)
 		for ; prevCount < fc; prevCount++ {
 			out.EmitInput = append(out.EmitInput, i)
@@ -540,8 +563,13 @@ func AlphaPlane(c []byte) []byte {
 // CaseLine renders the history with the recorded oracle for the model runner.
 func (h *History) CaseLine(mode string, o *Outcome) string {
 	var sb strings.Builder
-	fmt.Fprintf(&sb, "enc %s %d %d %d %d %d %d %d %d %d %d %d", mode, h.W, h.H, h.Loop, h.Kmin, h.Kmax,
+	kind := "enc"
+	if h.Faulty() {
+		kind = "ence"
+	}
+	fmt.Fprintf(&sb, "%s %s %d %d %d %d %d %d %d %d %d %d %d", kind, mode, h.W, h.H, h.Loop, h.Kmin, h.Kmax,
 		b2i(h.Lossless), b2i(h.Mixed), h.Quality, b2i(h.HasMeta()), b2i(o.Simple), len(h.Frames))
+	_ = kind
 	for i, f := range h.Frames {
 		var so StepOracle
 		if i < len(o.Oracles) {
@@ -551,6 +579,15 @@ func (h *History) CaseLine(mode string, o *Outcome) string {
 		if len(f.Pix) > 0 {
 			px = hex.EncodeToString(f.Pix)
 		}
+		if h.Faulty() {
+			var sf StepFail
+			if i < len(o.Fails) {
+				sf = o.Fails[i]
+			}
+			fmt.Fprintf(&sb, " %d %d %d %d %d %d %d %d %d %d %d %d %s", f.W, f.H, f.DurMS, b2i(so.BG), b2i(so.Key), b2i(so.AltA), b2i(so.AltB), b2i(so.AltC),
+				b2i(sf.A), b2i(sf.B), b2i(sf.C), b2i(sf.K), px)
+			continue
+		}
 		fmt.Fprintf(&sb, " %d %d %d %d %d %d %d %d %s", f.W, f.H, f.DurMS, b2i(so.BG), b2i(so.Key), b2i(so.AltA), b2i(so.AltB), b2i(so.AltC), px)
 	}
 	return sb.String()
@@ -558,6 +595,17 @@ func (h *History) CaseLine(mode string, o *Outcome) string {
 
 // ImplLine is the canonical result of the implementation, in the runner's format.
 func (o *Outcome) ImplLine(mode string) string {
+	if o.Faulty {
+		var r []string
+		for _, i := range o.Rejected {
+			r = append(r, fmt.Sprint(i))
+		}
+		return "rej:" + strings.Join(r, ",") + " " + o.implLine(mode)
+	}
+	return o.implLine(mode)
+}
+
+func (o *Outcome) implLine(mode string) string {
 	if o.Err != "" {
 		return o.Err
 	}
